@@ -19,16 +19,16 @@ vars == <<cfg, st, last>>
 
 MInit == /\ cfg \in {c \in Configs : c.limit <= c.n + 1}
          /\ st = Init0(cfg)
-         /\ last = [a |-> Obs(cfg, st), call |-> "", ret |-> "", started |-> st.started]
+         /\ last = [a |-> Obs(cfg, st), call |-> "", ret |-> "", started |-> st.started, ran |-> st.ran]
 MNext == \E call \in Calls :
            LET r == Do(cfg, st, call) IN
            /\ st' = r.st
-           /\ last' = [a |-> Obs(cfg, st), call |-> call, ret |-> r.ret, started |-> st.started]
+           /\ last' = [a |-> Obs(cfg, st), call |-> call, ret |-> r.ret, started |-> st.started, ran |-> st.ran]
            /\ UNCHANGED cfg
 MSpec == MInit /\ [][MNext]_vars
 
 \* every transition of the model satisfies every contract clause
 ModelSatisfiesContracts ==
-  last.call = "" \/ ClauseFail(cfg, st.hasarg, last.started, last.a, Obs(cfg, st), last.call, last.ret) = ""
+  last.call = "" \/ ClauseFail(cfg, st.hasarg, last.started, last.ran, last.a, Obs(cfg, st), last.call, last.ret) = ""
 TypeOK == st.k \in 0..cfg.n /\ (st.timedout => st.finished) /\ (st.k > 0 => st.trunk /\ st.started)
 =============================================================================
